@@ -372,11 +372,29 @@ fn check(p: &dyn Property, a: &Args) -> i32 {
             std::fs::write(&path, j.pretty()).expect("write replay");
             // the replay must reproduce in a fresh process before we report
             let me = std::env::current_exe().expect("exe");
-            let r = std::process::Command::new(me).arg(p.id()).arg("--replay").arg(&path).env("VSIM_NO_SUPERVISOR", "1").env_remove("VSIM_CHILD").env_remove("VSIM_PROGRESS").output();
-            let reproduced = match &r {
-                Ok(o) => o.status.code() == Some(1) && String::from_utf8_lossy(&o.stdout).contains(&format!("clause={}", mv.clause)),
-                Err(_) => false,
-            };
+            // The simulator itself is deterministic (selftest-determinism), so a violation that does not
+            // replay every time means the code under test depends on something per process (hash order):
+            // try a few fresh processes and say how many reproduced.
+            let mut reproduced_n = 0;
+            let mut tried = 0;
+            for _ in 0..8 {
+                tried += 1;
+                let r = std::process::Command::new(&me).arg(p.id()).arg("--replay").arg(&path).env("VSIM_NO_SUPERVISOR", "1").env_remove("VSIM_CHILD").env_remove("VSIM_PROGRESS").output();
+                let ok = match &r {
+                    Ok(o) => o.status.code() == Some(1) && String::from_utf8_lossy(&o.stdout).contains(&format!("clause={}", mv.clause)),
+                    Err(_) => false,
+                };
+                if ok {
+                    reproduced_n += 1;
+                }
+                if (reproduced_n >= 1 && tried == 1) || reproduced_n >= 2 {
+                    break;
+                }
+            }
+            let reproduced = reproduced_n > 0;
+            if reproduced && reproduced_n < tried {
+                println!("  note     : the replay reproduced in {} of {} fresh processes: the behaviour depends on per-process state (hash order)", reproduced_n, tried);
+            }
             println!("  clause   : {}", mv.clause);
             println!("  expected : {}", runner::truncate(&mv.expected, 600));
             println!("  observed : {}", runner::truncate(&mv.observed, 600));
